@@ -776,6 +776,19 @@ func (e *Env) trBinary(n *EBinary) Val {
 		return Val{T: t, S: "Bool", Ty: boolT}
 	case "<", "<=", ">", ">=":
 		a, b := e.tr(n.X), e.tr(n.Y)
+		if a.S == "Str" && b.S == "Str" {
+			f := e.u.strLt()
+			switch n.Op {
+			case "<":
+				return Val{T: app(f, a.T, b.T), S: "Bool", Ty: boolT}
+			case ">":
+				return Val{T: app(f, b.T, a.T), S: "Bool", Ty: boolT}
+			case "<=":
+				return Val{T: not(app(f, b.T, a.T)), S: "Bool", Ty: boolT}
+			default:
+				return Val{T: not(app(f, a.T, b.T)), S: "Bool", Ty: boolT}
+			}
+		}
 		if a.S != b.S || (a.S != "Int" && a.S != "Real") {
 			e.fail("ordering comparison on %s / %s in %s", a.S, b.S, n)
 		}
